@@ -19,7 +19,7 @@ use model_reach::*;
 
 verus! {
 
-//@fn structs.rs::add_types_recursive
+//@fn structs.rs::add_types_recursive props=C05,C08,C09
 fn add_types_recursive(
     types: &mut HashSet<naga::Handle<naga::Type>>,
     module: &naga::Module,
